@@ -1,5 +1,5 @@
 /-!
-# Effect skeleton of `register_file` (src/source/zip.rs, src/source/tar.rs)
+# Effect skeletons of `register_file` and `register_dir` (src/source/zip.rs, src/source/tar.rs)
 
 `amx` linearises the body of the two `register_file` functions into these tokens
 (`Gen/Archive.lean`); the archive model (`Model/Source.lean`) *interprets* a skeleton, and
@@ -39,14 +39,39 @@ inductive Tok
   | entryDirId
   /-- `dirs.entry(parent_id).or_default().push(entry)` -/
   | dirsPushParentEntry
+  /-- `register_dir(dirs, parent_id.clone())` -/
+  | registerDirParent
+  /-- `register_dir(dirs, id)` -/
+  | registerDirId
+  /-- `dirs.entry(parent_id).or_default().push(OwnedEntry::File(desc))` -/
+  | dirsPushParentFileDesc
   deriving DecidableEq, Repr
 
-/-- `pre; let entry = if <member is a file> { fileBranch } else { dirBranch }; post` -/
+/-- `pre; if <member is a file> { fileBranch } else { dirBranch }; post` (before the repair of
+F-C04 the split was `let entry = if ..` and `post` pushed `entry` into the parent's listing) -/
 structure Skel where
   pre : List Tok
   fileBranch : List Tok
   dirBranch : List Tok
   post : List Tok
+  deriving DecidableEq, Repr
+
+/-- Statements of the helper `register_dir(dirs, id)`. -/
+inductive DirTok
+  /-- `if dirs.contains_key(&id) { return; }` -/
+  | returnIfPresent
+  /-- `dirs.insert(id.clone(), Vec::new());` -/
+  | insertEmpty
+  /-- `register_dir(dirs, parent_id.clone());` (inside `if let Some(parent_id) = ..parent_id()`) -/
+  | recurseParent
+  /-- `dirs.entry(parent_id).or_default().push(OwnedEntry::Dir(id));` (inside the same `if let`) -/
+  | pushDirIntoParent
+  deriving DecidableEq, Repr
+
+/-- `pre; if let Some(parent_id) = DirEntry::Directory(&id).parent_id() { withParent }` -/
+structure DirSkel where
+  pre : List DirTok
+  withParent : List DirTok
   deriving DecidableEq, Repr
 
 end AmVerif.Model.ArchiveSkel
